@@ -5,6 +5,7 @@ package main
 import (
 	"fmt"
 	"go/types"
+	"sort"
 	"strings"
 )
 
@@ -711,8 +712,33 @@ func (e *Env) call(x *ECall) Val {
 	case "hasPrefix":
 		argn(2)
 		c.DeclSort("Str")
-		c.DeclFun("str_hasprefix", []string{"Str", "Str"}, "Bool")
-		return boolVal(app("str_hasprefix", e.eval(x.Args[0]).S, e.eval(x.Args[1]).S))
+		if _, ok := c.funs["str_hasprefix"]; !ok {
+			c.DeclFun("str_hasprefix", []string{"Str", "Str"}, "Bool")
+			c.DeclFun("str_concat", []string{"Str", "Str"}, "Str")
+			// a prefix of the left operand is a prefix of the concatenation
+			c.Assume("(forall ((a Str) (b Str) (p Str)) (! (=> (str_hasprefix a p) (str_hasprefix (str_concat a b) p)) :pattern ((str_hasprefix (str_concat a b) p))))")
+		}
+		sv, pv := e.eval(x.Args[0]), e.eval(x.Args[1])
+		// ground facts between the string literals seen so far (decided here, by Go's own strings.HasPrefix)
+		if lit, ok := x.Args[1].(*EStr); ok {
+			var texts []string
+			for t := range e.x.strs {
+				texts = append(texts, t)
+			}
+			sort.Strings(texts)
+			for _, t := range texts {
+				fact := app("str_hasprefix", e.x.strs[t], pv.S)
+				if !strings.HasPrefix(t, lit.V) {
+					fact = not(fact)
+				}
+				key := "hasprefix|" + t + "|" + lit.V
+				if !e.x.emitted[key] {
+					e.x.emitted[key] = true
+					c.Assume(fact)
+				}
+			}
+		}
+		return boolVal(app("str_hasprefix", sv.S, pv.S))
 	}
 	// predicate / spec function (macro expansion)
 	if p := e.x.eng.pred(e.pkg, x.Fn); p != nil {
